@@ -10,4 +10,6 @@ for c in $CHECKS; do
 done
 echo "exit $(grep -c '^VIOLATION' $D/detect.log | awk '{print ($1>0)?1:0}')" >> $D/detect.log
 git -C $W checkout -q -- .
+# the in-tree extension of the scratch tree may have been rebuilt from the seeded C sources: rebuild it from the clean ones
+(cd /verif && REPO=$W PYTHONPATH=.pydeps:. /venv/bin/python -c "from verif import extbuild; extbuild.ensure_current()" >/dev/null 2>&1)
 tail -2 $D/detect.log | cut -c1-200
